@@ -188,6 +188,10 @@ class Exec:
             return v.t != core.strlit("")
         if isinstance(v, VTuple):
             return z3.BoolVal(len(v.items) > 0)
+        if isinstance(v, core.VRec):
+            return z3.BoolVal(len(v.items) > 0)
+        if isinstance(v, VJson):
+            raise Unsupported("truth value of a json value")
         if isinstance(v, (VChild, VClass, VFunc, VBuiltin, VLambda)):
             return z3.BoolVal(True)
         if isinstance(v, VObj):
@@ -306,6 +310,8 @@ class Exec:
             d = {}
             for kk, vv in zip(keys, vals):
                 d[self.B.pykey(kk)] = vv
+            if s.keyctx:
+                return [Res(s, core.VRec(d))]  # inside a family body: a value, not a heap object
             return [Res(s, s.alloc(CDict(d)))]
 
         return self.bind(self.ev_list(st, list(n.keys) + list(n.values)), mk)
@@ -339,12 +345,70 @@ class Exec:
     def ev_BoolOp(self, st, n):
         is_and = isinstance(n.op, ast.And)
 
+        SIMPLE_CALLS = {"isinstance", "len", "hasattr", "callable"}
+
+        def simple(node):
+            for x in ast.walk(node):
+                if isinstance(x, ast.Call):
+                    if not (isinstance(x.func, ast.Name) and x.func.id in SIMPLE_CALLS):
+                        return False
+                elif isinstance(x, (ast.BoolOp, ast.IfExp, ast.Lambda, ast.ListComp, ast.GeneratorExp, ast.DictComp)):
+                    return False
+            return True
+
+        def pure_eval(s, node):
+            """evaluate node on a scratch fork; return its value if it is a single, effect-free,
+            non-raising, fork-free result (then short-circuiting cannot be observed)"""
+            if not simple(node):
+                return None
+            probe = s.fork()
+            npc, heap0, views0, nev = len(probe.pc), dict(probe.heap), probe.views, len(probe.events)
+            try:
+                rs = self.ev(probe, node)
+            except Unsupported:
+                return None
+            if len(rs) != 1 or rs[0].exc is not None or not isinstance(rs[0].v, VBool):
+                return None
+            s2 = rs[0].st
+            if s2.views is not views0 or len(s2.events) != nev or len(s2.foralls) != len(s.foralls):
+                return None
+            if len(s2.heap) != len(heap0) or any(s2.heap[k] is not heap0[k] for k in heap0):
+                return None
+            if len(s2.trace) != len(s.trace):
+                return None
+            return rs[0].v, s2.pc[npc:], s2.index_terms
+
         def rec(s, i):
             out = []
             for r in self.ev(s, n.values[i]):
                 if r.exc is not None or i == len(n.values) - 1:
                     out.append(r)
                     continue
+                if isinstance(r.v, VBool):
+                    # merge the remaining operands without forking when they are pure booleans
+                    acc = r.v.t
+                    st2 = r.st
+                    j = i + 1
+                    while j < len(n.values):
+                        pe = pure_eval(st2, n.values[j])
+                        if pe is None:
+                            break
+                        v, facts, idx = pe
+                        st2.pc.extend(facts)  # lemma instances only (no branch decisions were taken)
+                        st2.index_terms = idx
+                        acc = z3.And(acc, v.t) if is_and else z3.Or(acc, v.t)
+                        j += 1
+                    if j == len(n.values):
+                        out.append(Res(st2, VBool(acc)))
+                        continue
+                    if j > i + 1:
+                        # partially merged: continue with the rest under the usual short-circuit rule
+                        for s2, b in self.branch(st2, acc):
+                            if b == is_and:
+                                out.extend(rec(s2, j))
+                            else:
+                                out.append(Res(s2, VBool(b)))
+                        continue
                 for s2, b in self.branch(r.st, self.truth(r.st, r.v)):
                     if b == is_and:
                         out.extend(rec(s2, i + 1))
@@ -556,7 +620,7 @@ class Exec:
             return self.B.class_getattr(st, v, name)
         if isinstance(v, VModule):
             return self.B.module_getattr(st, v, name)
-        if isinstance(v, (VTuple, VStr, VFl, VInt, VJson, VOpq, VBool)) or v.kind in ("iter", "key"):
+        if isinstance(v, (VTuple, VStr, VFl, VInt, VJson, VOpq, VBool)) or v.kind in ("iter", "key", "rec"):
             return self.B.value_getattr(st, v, name)
         if isinstance(v, VNone):
             return self.raise_(st, "AttributeError", f"None.{name}")
@@ -704,6 +768,10 @@ class Exec:
             return self.raise_(st, "TypeError", f"unexpected keyword {list(kwargs)} for {fi.qualname}")
         for p, d in pending_defaults:
             frame[p] = self.B.default_value(st, fi, p, d)
+        # names assigned somewhere in the body are locals: unbound until assigned (UnboundLocalError)
+        for nm in assigned_names(node):
+            if nm not in frame:
+                frame[nm] = UNBOUND
         # locals that are assigned somewhere in the body start unbound
         st.frames.append(frame)
         out = []
@@ -1000,6 +1068,42 @@ class Exec:
         res = self.call_function(st, fi, args, kwargs or {})
         self.stats["paths"] += len(res)
         return res
+
+
+_ASSIGNED = {}
+
+
+def assigned_names(fnode):
+    k = id(fnode)
+    if k not in _ASSIGNED:
+        names = set()
+        for x in ast.walk(fnode):
+            if x is not fnode and isinstance(x, (ast.FunctionDef, ast.Lambda, ast.ListComp, ast.DictComp, ast.GeneratorExp, ast.SetComp)):
+                continue
+            if isinstance(x, ast.Name) and isinstance(x.ctx, ast.Store):
+                names.add(x.id)
+        # comprehension targets are not function locals
+        for x in ast.walk(fnode):
+            if isinstance(x, (ast.ListComp, ast.DictComp, ast.GeneratorExp, ast.SetComp)):
+                for g in x.generators:
+                    for t in ast.walk(g.target):
+                        if isinstance(t, ast.Name):
+                            names.discard(t.id) if not _assigned_outside(fnode, t.id) else None
+        _ASSIGNED[k] = names
+    return _ASSIGNED[k]
+
+
+def _assigned_outside(fnode, name):
+    def walk(n, inside):
+        for c in ast.iter_child_nodes(n):
+            ins = inside or isinstance(c, (ast.ListComp, ast.DictComp, ast.GeneratorExp, ast.SetComp))
+            if isinstance(c, ast.Name) and isinstance(c.ctx, ast.Store) and c.id == name and not ins:
+                return True
+            if walk(c, ins):
+                return True
+        return False
+
+    return walk(fnode, False)
 
 
 class _Absent:
